@@ -1,14 +1,18 @@
 pub mod c03;
+pub mod c04;
+pub mod c05;
 
 use crate::engine::Property;
 
 pub fn all_ids() -> Vec<&'static str> {
-    vec!["C03"]
+    vec!["C03", "C04", "C05"]
 }
 
 pub fn get(id: &str) -> Option<Property> {
     match id {
         "C03" => Some(c03::property()),
+        "C04" => Some(c04::property()),
+        "C05" => Some(c05::property()),
         _ => None,
     }
 }
